@@ -235,20 +235,32 @@ fn build(tier: &str) -> Cost {
         list.push((Emu::Ansi(0), "DCS macro id".into(), [dcs(&format!("{n};0;0!zAB")), format!("\x1b[{n}*z").into_bytes()].concat()));
         list.push((Emu::Ansi(0), "DCS macro invoke repeat arg".into(), [dcs("1;0;0!zAB"), format!("\x1b[1;{n}*z").into_bytes()].concat()));
     }
-    for depth_body in [
-        "\x1b[8*z",
-        "\x1b[8*z\x1b[8*z",
-        "A\x1b[8*z\x1b[8*z\x1b[8*z\x1b[8*z\x1b[8*z\x1b[8*z",
-        "\x1b[8*zB",
-        "\x1bP8;0;0!z\x1b[8*z\x1b\\",
+    // recursive macros have to be defined in hex: a literal ESC [ inside a DCS string is a macro invocation at definition time
+    let hex = |t: &str| t.bytes().map(|b| format!("{b:02X}")).collect::<String>();
+    for (name, body) in [
+        ("x1", "\x1b[8*z".to_string()),
+        ("x2", "\x1b[8*z\x1b[8*z".to_string()),
+        ("x6", format!("A{}", "\x1b[8*z".repeat(6))),
+        ("x9", "\x1b[8*z".repeat(9)),
+        ("tail text", "\x1b[8*zB".to_string()),
+        ("redefine inside", "\x1bP8;0;1!z1B5B382A7A\x1b\\\x1b[8*z".to_string()),
     ] {
-        list.push((Emu::Ansi(0), "DCS macro self-recursive".into(), [dcs(&format!("8;0;0!z{depth_body}")), b"\x1b[8*z".to_vec()].concat()));
+        list.push((Emu::Ansi(0), format!("DCS macro self-recursive {name}"), [dcs(&format!("8;0;1!z{}", hex(&body))), b"\x1b[8*z".to_vec()].concat()));
     }
-    list.push((Emu::Ansi(0), "DCS macro mutual".into(), [dcs("1;0;0!z\x1b[2*z\x1b[2*z"), dcs("2;0;0!z\x1b[1*z\x1b[1*zX"), b"\x1b[1*z".to_vec()].concat()));
+    for fan in [2usize, 4, 9] {
+        list.push((Emu::Ansi(0), format!("DCS macro self-recursive repeat group x{fan}"), [dcs(&format!("1;0;1!z!{fan};1B5B312A7A;")), b"\x1b[1*z".to_vec()].concat()));
+        list.push((
+            Emu::Ansi(0),
+            format!("DCS macro mutual x{fan}"),
+            [dcs(&format!("1;0;1!z!{fan};1B5B322A7A;")), dcs(&format!("2;0;1!z!{fan};1B5B312A7A;58")), b"\x1b[1*z".to_vec()].concat(),
+        ));
+    }
+    list.push((Emu::Ansi(0), "DCS macro invoked at definition time".into(), [dcs("1;0;0!zAB"), dcs(&format!("2;0;0!z{}", "\x1b[1*z".repeat(9))), b"\x1b[2*z".to_vec()].concat()));
     list.push((Emu::Ansi(0), "DCS macro chain 16".into(), {
         let mut b = Vec::new();
         for i in 0..20 {
-            b.extend(dcs(&format!("{i};0;0!z\x1b[{}*z\x1b[{}*z", i + 1, i + 1)));
+            let body: String = format!("\x1b[{}*z\x1b[{}*z", i + 1, i + 1).bytes().map(|b| format!("{b:02X}")).collect();
+            b.extend(dcs(&format!("{i};0;1!z{body}")));
         }
         b.extend(b"\x1b[0*z");
         b
